@@ -456,7 +456,11 @@ pub fn active_avoid() -> Vec<String> {
 
 /// Child mode of the abort bisection: run cases lo..hi one after the other.
 pub fn run_case_range(check: &dyn Check, tier: &str, master_seed: u64, lo: usize, hi: usize) {
-    let avoid = active_avoid();
+    // the parent evaluated the findings once and hands the constraint list down
+    let avoid = match std::env::var("VERIF_AVOID_LIST") {
+        Ok(l) => l.split(',').filter(|a| !a.is_empty()).map(|a| a.to_string()).collect(),
+        Err(_) => active_avoid(),
+    };
     for i in lo..hi {
         let case = check.gen_case(case_seed(master_seed, i), i, tier, &avoid);
         let _ = check.run_case(&case);
@@ -469,6 +473,7 @@ pub fn locate_abort(id: &str, tier: &str, status: Option<i32>) -> i32 {
     let Some(check) = crate::checks::by_id(id) else { return 2 };
     let master_seed: u64 = std::env::var("VERIF_SEED").ok().and_then(|s| s.parse().ok()).unwrap_or(20260921);
     println!("the check process was aborted (status {status:?}); locating the case in child processes");
+    unsafe { std::env::set_var("VERIF_AVOID_LIST", active_avoid().join(",")) };
     let n = check.budget(tier);
     let aborts = |lo: usize, hi: usize| -> bool {
         let st = crate::child(&["case-range", id, tier, &lo.to_string(), &hi.to_string()]);
